@@ -262,26 +262,26 @@ reproc_t *hx_destroy(reproc_t *p)
   return r;
 }
 
-void hx_check_ledgers(const char *prop, const struct vk_fdsnap *before, int expect_children_reaped)
+void hx_check_ledgers(const char *prop, const char *key, const struct vk_fdsnap *before, int expect_children_reaped)
 {
   char diff[400];
   struct vk_fdsnap after;
   vk_fd_snapshot(&after);
   if (before && !vk_fd_snapshot_equal(before, &after, diff, sizeof diff))
-    vk_violation(prop, "fd-set-restored", NULL, "descriptor table differs from the one before the first call: %s", diff);
+    vk_violation(prop, "fd-set-restored", key, "descriptor table differs from the one before the first call: %s", diff);
   if (vk_fd_ledger_open_count() != 0)
-    vk_violation(prop, "fd-ledger-empty", NULL, "%d descriptor(s) opened by the library were never closed", vk_fd_ledger_open_count());
+    vk_violation(prop, "fd-ledger-empty", key, "%d descriptor(s) opened by the library were never closed", vk_fd_ledger_open_count());
   if (vk_heap_live_count() != 0)
-    vk_violation(prop, "heap-ledger-empty", NULL, "%d block(s), %zu bytes allocated by the library were never released",
+    vk_violation(prop, "heap-ledger-empty", key, "%d block(s), %zu bytes allocated by the library were never released",
                  vk_heap_live_count(), vk_heap_live_bytes());
-  if (vk_foreign_closes) vk_violation(prop, "no-foreign-close", NULL, "the library tried to close %d descriptor(s) it did not open", vk_foreign_closes);
-  if (vk_double_closes) vk_violation(prop, "no-double-close", NULL, "the library closed %d descriptor(s) twice", vk_double_closes);
-  if (vk_foreign_frees) vk_violation(prop, "no-foreign-free", NULL, "the library released %d block(s) it does not own (or twice)", vk_foreign_frees);
+  if (vk_foreign_closes) vk_violation(prop, "no-foreign-close", key, "the library tried to close %d descriptor(s) it did not open", vk_foreign_closes);
+  if (vk_double_closes) vk_violation(prop, "no-double-close", key, "the library closed %d descriptor(s) twice", vk_double_closes);
+  if (vk_foreign_frees) vk_violation(prop, "no-foreign-free", key, "the library released %d block(s) it does not own (or twice)", vk_foreign_frees);
   if (expect_children_reaped) {
     for (int i = 0; i < vk_nchildren; i++) {
       struct vk_child *c = &vk_children[i];
       if (c->state != CH_REAPED)
-        vk_violation(prop, "child-reaped", NULL, "child %d (pid %d) was left unreaped (state %d)", i, c->pid, c->state);
+        vk_violation(prop, "child-reaped", key, "child %d (pid %d) was left unreaped (state %d)", i, c->pid, c->state);
     }
   }
 }
